@@ -8,7 +8,9 @@ import (
 	crand "crypto/rand"
 	"fmt"
 	"math/big"
+	"reflect"
 	"testing"
+	"unsafe"
 
 	libp2pcrypto "github.com/libp2p/go-libp2p/core/crypto"
 	cryptopb "github.com/libp2p/go-libp2p/core/crypto/pb"
@@ -192,12 +194,11 @@ func TestVerif_C18_Attribution(t *testing.T) {
 	others := []*c18Key{c18NewKey("ed25519"), c18NewKey("ed25519"), c18NewKey("ecdsa"), c18NewKey("rsa")}
 
 	newChannel := func() (*channel, chan net.Message) {
-		ch := &channel{
-			name:               "c18",
-			clientIdentity:     &identity{id: secp[7].id, pubKey: secp[7].pub, privKey: secp[7].priv},
-			messageHandlers:    make([]*messageHandler, 0),
-			unmarshalersByType: make(map[string]func() net.TaggedUnmarshaler),
-		}
+		ch := c18atInitUnmarshalers(&channel{
+			name:            "c18",
+			clientIdentity:  &identity{id: secp[7].id, pubKey: secp[7].pub, privKey: secp[7].priv},
+			messageHandlers: make([]*messageHandler, 0),
+		})
 		ch.SetUnmarshaler(func() net.TaggedUnmarshaler { return &c18Payload{} })
 		ch.SetUnmarshaler(func() net.TaggedUnmarshaler { return &c18Other{} })
 		raw := make(chan net.Message, 16)
@@ -215,6 +216,35 @@ func TestVerif_C18_Attribution(t *testing.T) {
 		ch, raw := newChannel()
 		var seq uint64
 		goodSent, goodDelivered := 0, 0
+		// every delivered message is kept together with what it carried at
+		// delivery: what the application reads later must still be that
+		type kept struct {
+			m       net.Message
+			payload []byte
+			key     []byte
+			from    string
+			desc    string
+		}
+		var keptMsgs []kept
+		recheck := func(when string) {
+			for _, km := range keptMsgs {
+				var data []byte
+				switch p := km.m.Payload().(type) {
+				case *c18Payload:
+					data = p.data
+				case *c18Other:
+					data = p.data
+				}
+				if !bytes.Equal(data, km.payload) {
+					r.Violation("attribution:delivered-content-changed-later", "the payload of a message already delivered and attributed to its author changed "+when+" (it now reads "+verifkit.Hex(data)+")", km.desc, nil)
+					return
+				}
+				if km.m.TransportSenderID() == nil || km.m.TransportSenderID().String() != km.from || !bytes.Equal(km.m.SenderPublicKey(), km.key) {
+					r.Violation("attribution:delivered-author-changed-later", "the author of a message already delivered changed "+when, km.desc, nil)
+					return
+				}
+			}
+		}
 		for k := 0; k < per; k++ {
 			seq++
 			pubk := secp[rng.Intn(6)]
@@ -442,12 +472,29 @@ func TestVerif_C18_Attribution(t *testing.T) {
 					r.Violation("attribution:wrong-content", p, desc, map[string]interface{}{
 						"from": from.String(), "delivered_sender": fmt.Sprint(m.TransportSenderID()), "delivered_key": verifkit.Hex(m.SenderPublicKey()), "expected_key": verifkit.Hex(innerKey)})
 				}
+				if len(problems) == 0 && len(keptMsgs) < 64 {
+					keptMsgs = append(keptMsgs, kept{m, append([]byte(nil), payload...), append([]byte(nil), m.SenderPublicKey()...), from.String(), desc})
+				}
 			}
 			if si == 0 && (k == 3 || k == 17 || k == 40) {
 				r.Sample(map[string]interface{}{"envelope": e, "delivered": len(got), "error": fmt.Sprint(err)})
 			}
 		}
+		recheck("after later envelopes (delivered and dropped ones) were processed")
+		r.Count("delivered_messages_rechecked_at_end", int64(len(keptMsgs)))
 		r.Count("valid_envelopes", int64(goodSent))
 		r.Count("valid_envelopes_delivered", int64(goodDelivered))
 	})
+}
+
+// c18atInitUnmarshalers gives the channel an empty unmarshaler registry
+// whatever the registry's concrete map type is (so the monitor keeps
+// compiling when that representation changes).
+func c18atInitUnmarshalers(c *channel) *channel {
+	f := reflect.ValueOf(c).Elem().FieldByName("unmarshalersByType")
+	if !f.IsValid() || f.Kind() != reflect.Map {
+		panic("verif: channel has no unmarshalersByType map")
+	}
+	reflect.NewAt(f.Type(), unsafe.Pointer(f.UnsafeAddr())).Elem().Set(reflect.MakeMap(f.Type()))
+	return c
 }
